@@ -229,14 +229,18 @@ def search_encode(r, epg, ncase):
         npoint = int(r.integers(2, 8))
         fov = float(r.uniform(5, 50)) if r.random() < 0.5 else np.sort(r.uniform(-20, 20, size=npoint))
         rewind = [None, True, float(r.uniform(0.2, 0.8))][r.integers(3)]
-        inp = {"values": v, "duration": duration, "rf": rf, "gradient": gradient, "fov": fov, "npoint": npoint, "rewind": rewind}
+        # gyromagnetic ratio in kHz/T: default (1H, 42576), 1H given explicitly, 23Na, 31P
+        gamma = [None, 42.576e3, 11.262e3, 17.235e3][r.integers(4)]
+        inp = {"values": v, "duration": duration, "rf": rf, "gradient": gradient, "fov": fov, "npoint": npoint, "rewind": rewind,
+               "gamma": gamma}
         try:
             with warnings.catch_warnings():
                 warnings.simplefilter("ignore")
                 pulse = epg_rfpulse(epg)(v, duration, rf=rf)
-                enc = rfpulse.encode_phase(pulse, gradient, fov, npoint=npoint, rewind=rewind)
-                xs = utils.spatial_range(fov, npoint) if np.isscalar(fov) else fov
-                freqs = utils.space_to_freq(gradient, xs)
+                enc = rfpulse.encode_phase(pulse, gradient, fov, npoint=npoint, rewind=rewind, **({} if gamma is None else {"gamma": gamma}))
+                xs = np.linspace(-0.5, 0.5, npoint) * fov if np.isscalar(fov) else np.asarray(fov)
+                # defining formula: f [kHz] = gamma [kHz/T] * G [mT/m] * x [mm] * 1e-6
+                freqs = (42.576e3 if gamma is None else gamma) * gradient * xs * 1e-6
                 ref = []
                 for x in v:
                     ref += [epg.T(180 * abs(x) * rf, float(np.angle(x, deg=True))), epg.P(duration / n, freqs)]
